@@ -254,7 +254,7 @@ func runBehaviour(r *vf.Run, l *linter, acc *itemResult) (stats map[string]*behS
 		templateOf[t.check] = t
 		stats[t.check] = &behStat{NoCompare: t.noCompare, Differences: map[string]int{}}
 	}
-	perTemplate := r.Pick(6, 300)
+	perTemplate := r.Pick(6, 60)
 	if v, err := strconv.Atoi(os.Getenv("C16_PER")); err == nil && v > 0 {
 		perTemplate = v // development only
 	}
